@@ -29,7 +29,10 @@ Definition res_obs (r : GenMachine.res) : obs :=
   match r with RYield => otag "more" [] | RStop => otag "done" [] | RRaise => otag "raised" [] end.
 
 Definition answer_obs (h0 h : heap) (watch : list term) : obs :=
-  let r := rstore h in OL [OL (map (fun t => term_obs (aseq r t)) watch); onat (length h - length h0)].
+  let r := rstore h in
+  OL [OL (map (fun t => term_obs (aseq r t)) watch); onat (length h - length h0);
+      (* the value of every cell bound since the query started (the heap is nw ++ h0) *)
+      OL (map (fun p : nat * term => term_obs (aseq r (TVar (fst p)))) (firstn (length h - length h0) h))].
 
 Definition snapshot_x (h : heap) (nvars : nat) : obs :=
   let r := rstore h in
